@@ -303,6 +303,46 @@ def crowded_session(bindir, rng, tag):
         rd.cleanup()
 
 
+def bigcount_session(bindir, rng, tag, n):
+    """one aircraft heard n times: the message count shown is the tracker's, however many digits it has"""
+    rx = (52.0, 4.0)
+    size = (12, 100)
+    srv = apps.FeedServer([{"segments": [], "interactive": True}])
+    srv.start()
+    rd = apps.Radar(bindir, srv.port, ["--lat", str(rx[0]), "--long", str(rx[1])], size=size)
+    try:
+        rd.wait_frames(2, 6)
+        rd.send(apps.KEYS["F3"]); rd.wait_frames(rd.frame_count() + 2, 3)
+        addr = rng.randrange(1, 1 << 24)
+        line = b"*" + bytes(track_checks.f_ident(rng, addr, "BIG" + str(rng.randrange(100, 999)))).hex().encode() + b";\n"
+        srv.push(line * n)
+        # (the client takes one line per turn of its loop, and waits 10 ms for input in each)
+        t0 = time.time()
+        target = rd.frame_count() + n
+        while rd.frame_count() < target and time.time() - t0 < 60 + n / 25.0 and rd.poll() is None:
+            rd.wait_frames(min(target, rd.frame_count() + 500), 10)
+        rd.wait_frames(rd.frame_count() + 3, 3)
+        marks = [rd.frame_count()]
+        rd.send(apps.KEYS["q"]); rd.wait_exit(4)
+        snaps, snaps_fg = vt.snapshots_with_colour(rd.out, size[0], size[1])
+        out = [{"ev": "session_start", "tag": tag, "expiry": 0}]
+        added = False
+        for e in apps.hook_events(rd):
+            if e.get("ev") == "action" and not added:
+                out.append({"ev": "action", "added": e["added"], "keys": e["keys"]})      # (the first one: the others add nothing)
+                added = True
+            elif e.get("ev") == "draw" and e["frame"] in marks and e["frame"] in snaps:
+                d = e
+                ev = {"ev": "screen", "frame": d["frame"], "tab": d["tab"], "sel": d["sel"], "w": d["w"], "h": d["h"], "scale9": d["scale9"],
+                      "lat": d["lat"], "long": d["long"], "clat": d["clat"], "clong": d["clong"], "planes": d["planes"]}
+                ev.update(parse_screen(snaps[d["frame"]], d, snaps_fg.get(d["frame"])))
+                out.append(ev)
+        return out
+    finally:
+        srv.stop()
+        rd.cleanup()
+
+
 def run(prop, tier, seed, rep):
     rng = random.Random(seed * 1000003 + 18)
     res = core.run_mc("MC_RadarUI", workers=8, timeout=3000, cache=False,
@@ -317,6 +357,10 @@ def run(prop, tier, seed, rep):
         results = list(ex.map(lambda i: session(bindir, random.Random(seeds[i]), f"s{i}", tier), range(n)))
     for i in range(1 if tier == "quick" else 8):
         results.append(crowded_session(bindir, random.Random(seeds[i] ^ 0x5EED), f"crowd{i}"))
+    # a message count of four digits (quick) and of five (thorough: 10 005 lines take about two minutes)
+    big = bigcount_session(bindir, random.Random(seeds[0] ^ 0xB16), "bigcount", 1003 if tier == "quick" else 10005)
+    results.append(big)
+    rep.extra["largest_message_count_shown"] = max((p["n"] for e in big if e["ev"] == "screen" for p in e["planes"]), default=0)
     events = [e for r in results for e in r]
     verdicts, st, tr = core.validate_events("Trace_Screen", events, prop, shards=8, boundary=lambda e: e["ev"] == "session_start")
     rep.add_trace_stats(st, tr, n)
